@@ -21,10 +21,20 @@ type Case struct {
 	Site     Site       `json:"site"`
 	Seeds    []SeedPlan `json:"seeds"`
 	// Sequential: insert one seed at a time and wait for it (seencheck histories); otherwise all at once.
-	Sequential bool `json:"sequential,omitempty"`
+	Sequential bool  `json:"sequential,omitempty"`
+	Ctl        []Ctl `json:"ctl,omitempty"`
 }
 
 const ExcludedHost = "excluded.example.net"
+
+// SharedHost serves resources referenced by several seeds (seencheck histories).
+const SharedHost = "shared.example.com"
+
+// Ctl is a control event triggered when the At-th request reaches the simulated network.
+type Ctl struct {
+	At   int    `json:"at"`
+	Kind string `json:"kind"` // pause-resume | pause-stop | stop
+}
 
 type siteBuilder struct {
 	t    *rapid.T
@@ -82,7 +92,7 @@ func (b *siteBuilder) doc(levels int) string {
 
 // asset creates one embedded resource of a page and returns the reference the page carries for it.
 func (b *siteBuilder) asset(siblings []string) string {
-	switch b.pick("assetkind", 14) {
+	switch b.pick("assetkind", 15) {
 	case 0, 1, 2, 3:
 		return b.leaf()
 	case 4, 5:
@@ -115,6 +125,14 @@ func (b *siteBuilder) asset(siblings []string) string {
 			return siblings[b.pick("dup", len(siblings))]
 		}
 		return b.leaf()
+	case 13:
+		// a resource on the shared host, referenced by several seeds
+		b.feat["shared-asset"] = true
+		u := fmt.Sprintf("http://%s/c%d.png", SharedHost, b.pick("sharedidx", 3))
+		if b.site[u] == nil {
+			b.site[u] = &Res{Kind: "bin"}
+		}
+		return u
 	case 12:
 		b.feat["pathless-asset"] = true
 		b.n++
@@ -146,7 +164,8 @@ func (b *siteBuilder) page() string {
 }
 
 // GenSeed adds the site of one seed to the case and returns its plan and the features it contains.
-func GenSeed(t *rapid.T, idx int, site Site, maxHops int) (SeedPlan, map[string]bool) {
+func GenSeed(t *rapid.T, idx int, site Site, st Settings) (SeedPlan, map[string]bool) {
+	maxHops := st.MaxHops
 	b := &siteBuilder{t: t, site: site, host: fmt.Sprintf("s%d.example.com", idx), feat: map[string]bool{}}
 	sp := SeedPlan{ID: fmt.Sprintf("seed-%d", idx), Host: b.host, Hops: rapid.IntRange(0, maxHops+1).Draw(t, "hops")}
 	switch b.pick("seedkind", 12) {
@@ -212,6 +231,19 @@ func GenSeed(t *rapid.T, idx int, site Site, maxHops int) (SeedPlan, map[string]
 
 // GenSettings draws the per-lifecycle knobs.
 func GenSettings(t *rapid.T) Settings {
+	s := genSettingsBase(t)
+	if rapid.IntRange(0, 3).Draw(t, "domainscrawl") == 0 {
+		s.DomainsCrawl = []string{"crawl.example.org"}
+	}
+	if rapid.IntRange(0, 3).Draw(t, "ratelimit") == 0 {
+		s.RateLimit = true
+		s.RateCapacity = float64(rapid.IntRange(1, 4).Draw(t, "ratecap"))
+		s.RateRefill = []float64{0.2, 0.5, 1, 2, 10}[rapid.IntRange(0, 4).Draw(t, "raterefill")]
+	}
+	return s
+}
+
+func genSettingsBase(t *rapid.T) Settings {
 	return Settings{
 		Workers:      rapid.IntRange(1, 4).Draw(t, "workers"),
 		MaxAssets:    rapid.IntRange(1, 4).Draw(t, "maxassets"),
